@@ -256,6 +256,9 @@ UnstructureClauses(s, l) ==
                   ELSE IF KeysEq(ev.w, Wire(prev.o)) THEN {"U_exact"} ELSE {"U_exact", "U_keys"})
        ELSE IF l = 4 /\ s.sk = "reparse"      \* Structure(j) . Scramble(that object) . Structure(j) . Unstructure: parsed objects share nothing
             THEN (IF Lossless(prev.j, ev.w) /\ RT(prev.j, ev.w, T) THEN {} ELSE {"U_lossless"})
+       ELSE IF l = 4 /\ s.sk = "reunstructure"   \* Construct(o, equal sub-objects shared) . Unstructure . Scramble(the returned JSON) . Unstructure
+            THEN (IF JEq(ev.w, Wire(s.ev[1].o)) THEN {}
+                  ELSE IF KeysEq(ev.w, Wire(s.ev[1].o)) THEN {"U_exact"} ELSE {"U_exact", "U_keys"})
        ELSE IF l = 4 /\ s.sk = "mutate"       \* Construct(o) . Unstructure . Assign(-> o2) . Unstructure: the object's CURRENT state is written
             THEN (IF JEq(ev.w, Wire(s.ev[3].o)) THEN {}
                   ELSE IF KeysEq(ev.w, Wire(s.ev[3].o)) THEN {"U_exact"} ELSE {"U_exact", "U_keys"})
@@ -295,7 +298,8 @@ Clauses(s, l) == CASE s.ev[l].e = "Structure" -> StructureClauses(s, l)
 Positions(s, l, fails) ==
     LET ev == s.ev[l]  T == RootType(s.root)  rn == RootName(s.root) IN
     (IF "U_lossless" \in fails THEN Bad(IF s.sk = "observed" THEN DropNulls(s.ev[l - 1].j, ev.w) ELSE s.ev[l - 1].j, ev.w, T, rn) ELSE {})
-    \cup (IF "U_exact" \in fails THEN Bad(Wire(s.ev[l - 1].o), ev.w, T, rn) ELSE {})
+    \cup (IF "U_exact" \in fails
+          THEN Bad(Wire(IF s.sk = "reunstructure" /\ l = 4 THEN s.ev[1].o ELSE s.ev[l - 1].o), ev.w, T, rn) ELSE {})
     \cup (IF "U_idem" \in fails THEN Bad(s.ev[2].w, ev.w, T, rn) ELSE {})
     \cup (IF "S_typed" \in fails THEN BadWT(ev.p, T, ev.j, rn) ELSE {})
 
